@@ -6,47 +6,48 @@
 (* callbacks (OnJoinEvent / OnLeaveEvent), the start of stop() with the key   *)
 (* the connection holds, the writer's cmd_written, the callers' returns.      *)
 (* All stamped under one mutex (causal order).                                *)
-EXTENDS Integers, Sequences, FiniteSets, TLC, Json, IOUtils, CSV
+EXTENDS Integers, Sequences, FiniteSets, TLC, Json, IOUtils, CSV, SequencesExt
 
 Trace == ndJsonDeserialize(IOEnv.VERIF_TRACE)
-VARIABLES l, owner, joinedKey, stopping, joinOk, leaveCb, routed, bad
-Init == l = 1 /\ owner = <<>> /\ joinedKey = <<>> /\ stopping = <<>> /\ joinOk = <<>> /\ leaveCb = <<>> /\ routed = <<>> /\ bad = <<>>
+VARIABLES l, owner, joinedKey, stopping, joinOk, leaveCb, routed, refused, bad
+Init == l = 1 /\ owner = <<>> /\ joinedKey = <<>> /\ stopping = <<>> /\ joinOk = <<>> /\ leaveCb = <<>> /\ routed = <<>> /\ refused = {} /\ bad = <<>>
 E == Trace[l]
 Ext(fn, k, v) == [y \in DOMAIN fn \cup {k} |-> IF y = k THEN v ELSE fn[y]]
 Without(fn, k) == [y \in DOMAIN fn \ {k} |-> fn[y]]
 Get(fn, k, d) == IF k \in DOMAIN fn THEN fn[k] ELSE d
 Flag(ok, what) == IF ok THEN bad ELSE Append(bad, [l |-> l, what |-> what])
-Same == UNCHANGED <<owner, joinedKey, stopping, joinOk, leaveCb, routed>>
+Same == UNCHANGED <<owner, joinedKey, stopping, joinOk, leaveCb, routed, refused>>
 
 MJoinOk == /\ E.ev = "M.join.ok"
            /\ bad' = Flag(E.key \notin DOMAIN owner, "JoinOverwroteOwner")
            /\ owner' = Ext(owner, E.key, E.conn) /\ joinedKey' = Ext(joinedKey, E.conn, E.key)
-           /\ UNCHANGED <<stopping, joinOk, leaveCb, routed>>
+           /\ UNCHANGED <<stopping, joinOk, leaveCb, routed, refused>>
 MJoinRefused == /\ E.ev = "M.join.refused"
-                /\ bad' = Flag(E.key \in DOMAIN owner /\ Get(owner, E.key, -1) # E.conn, "RefusedFreeKey") /\ Same
+                /\ bad' = Flag(E.key \in DOMAIN owner /\ Get(owner, E.key, -1) # E.conn, "RefusedFreeKey")
+                /\ refused' = refused \cup {E.conn} /\ UNCHANGED <<owner, joinedKey, stopping, joinOk, leaveCb, routed>>
 SBegin == /\ E.ev = "S.begin"
           /\ bad' = Flag(E.key = Get(joinedKey, E.c, ""), "StopWithForeignKey")
-          /\ stopping' = Ext(stopping, E.c, E.key) /\ UNCHANGED <<owner, joinedKey, joinOk, leaveCb, routed>>
+          /\ stopping' = Ext(stopping, E.c, E.key) /\ UNCHANGED <<owner, joinedKey, joinOk, leaveCb, routed, refused>>
 MLeave == /\ E.ev = "M.leave"
           /\ IF E.key \in DOMAIN owner
              THEN /\ bad' = Flag(Get(stopping, owner[E.key], "?") = E.key, "LeaveFreedForeignKey")
                   /\ owner' = Without(owner, E.key)
              ELSE /\ bad' = Flag(E.key = "" \/ \E c \in DOMAIN stopping : stopping[c] = E.key, "LeaveOfUnknownKey") /\ owner' = owner
-          /\ UNCHANGED <<joinedKey, stopping, joinOk, leaveCb, routed>>
+          /\ UNCHANGED <<joinedKey, stopping, joinOk, leaveCb, routed, refused>>
 JoinCb == /\ E.ev = "join"
           /\ IF E.ok THEN /\ bad' = Flag(Get(joinedKey, E.c, "?") = E.key /\ Get(joinOk, E.c, 0) = 0, "JoinCallback")
                           /\ joinOk' = Ext(joinOk, E.c, 1)
-             ELSE /\ bad' = Flag(E.c \notin DOMAIN joinedKey, "RefusedCallbackForOwner") /\ joinOk' = joinOk
-          /\ UNCHANGED <<owner, joinedKey, stopping, leaveCb, routed>>
+             ELSE /\ bad' = Flag(E.c \notin DOMAIN joinedKey, "RefusedCallbackForOwner") /\ joinOk' = Ext(joinOk, E.c, 2)
+          /\ UNCHANGED <<owner, joinedKey, stopping, leaveCb, routed, refused>>
 LeaveCb == /\ E.ev = "leave"
            /\ bad' = Flag(E.key = Get(joinedKey, E.c, "") /\ E.c \notin DOMAIN leaveCb, "LeaveCallback")
-           /\ leaveCb' = Ext(leaveCb, E.c, E.key) /\ UNCHANGED <<owner, joinedKey, stopping, joinOk, routed>>
+           /\ leaveCb' = Ext(leaveCb, E.c, E.key) /\ UNCHANGED <<owner, joinedKey, stopping, joinOk, routed, refused>>
 MRoute == /\ E.ev = "M.route.before"
           /\ bad' = Flag(E.key \in DOMAIN owner, "RoutedToOfflineKey")
-          /\ routed' = Ext(routed, E.k, Get(owner, E.key, 0)) /\ UNCHANGED <<owner, joinedKey, stopping, joinOk, leaveCb>>
+          /\ routed' = Ext(routed, E.k, Get(owner, E.key, 0)) /\ UNCHANGED <<owner, joinedKey, stopping, joinOk, leaveCb, refused>>
 MNotExist == /\ E.ev = "M.route.notexist"
              /\ bad' = Flag(E.key \notin DOMAIN owner, "NotExistForOnlineKey")
-             /\ routed' = Ext(routed, E.k, 0) /\ UNCHANGED <<owner, joinedKey, stopping, joinOk, leaveCb>>
+             /\ routed' = Ext(routed, E.k, 0) /\ UNCHANGED <<owner, joinedKey, stopping, joinOk, leaveCb, refused>>
 CmdWritten == /\ E.ev = "cmd_written"
               /\ bad' = Flag(Get(routed, E.k, -1) = E.c, "CommandToWrongConnection") /\ Same
 CmdRet == /\ E.ev = "cmd_ret"
@@ -59,6 +60,11 @@ Next == l <= Len(Trace) /\ l' = l + 1
         /\ (MJoinOk \/ MJoinRefused \/ SBegin \/ MLeave \/ JoinCb \/ LeaveCb \/ MRoute \/ MNotExist \/ CmdWritten \/ CmdRet \/ Other)
 \* at most one live connection per key holds structurally (owner is a function); every key is free at the end
 Done == l = Len(Trace) + 1
+\* the application is told of every join decision (the join callback follows the registry's answer, accepted or refused,
+\* whatever the joining message was), and of the end of every connection it was told had joined
+Unannounced == {c \in DOMAIN joinedKey : Get(joinOk, c, 0) # 1} \cup {c \in refused : Get(joinOk, c, 0) # 2}
+Unleft      == {c \in DOMAIN joinedKey : c \notin DOMAIN leaveCb}
 Report == Done => CSVWrite("%1$s", <<ToJson([bad |-> bad, n |-> Len(Trace), online |-> Cardinality(DOMAIN owner),
-                                              joins |-> Cardinality(DOMAIN joinOk)])>>, IOEnv.VERIF_OUT)
+                                              joins |-> Cardinality(DOMAIN joinOk), unannounced |-> SetToSeq(Unannounced),
+                                              unleft |-> SetToSeq(Unleft)])>>, IOEnv.VERIF_OUT)
 =============================================================================
